@@ -1,88 +1,137 @@
 /-
   Proofs.C02 — lemmas and proofs behind Props/C02.lean.
+  The work is in Proofs/C02Basic.lean (paths, `$set`, top-level frame), Proofs/C02Ops.lean (the
+  operators on one container, slices, `$pull`, replacement) and Proofs/C02Frame.lean (the frame of
+  a whole operator update).
 -/
 import Spec.UpdateSpec
 import Spec.StoreInv
+import Proofs.C02Basic
+import Proofs.C02Ops
+import Proofs.C02Frame
 
 namespace MongoModel.Proofs.C02
-open MongoModel MongoModel.Spec
+open MongoModel MongoModel.Spec MongoModel.Proofs.C02Lemmas
 
 theorem set_get (now v : Val) (parts : List String) (d d' : Val) (hp : parts ≠ [])
     (hw : writable parts d = true)
-    (h : updateSingleField .set now v parts d = .ok d') : getPath parts d' = some v := by sorry
+    (h : updateSingleField .set now v parts d = .ok d') : getPath parts d' = some v := by
+  obtain ⟨d'', h1, h2⟩ := set_get_total now v parts d hp hw
+  rw [h1] at h; cases h; exact h2
 
 theorem set_total (now v : Val) (parts : List String) (d : Val) (hp : parts ≠ [])
-    (hw : writable parts d = true) : ∃ d', updateSingleField .set now v parts d = .ok d' := by sorry
+    (hw : writable parts d = true) : ∃ d', updateSingleField .set now v parts d = .ok d' := by
+  obtain ⟨d', h1, _⟩ := set_get_total now v parts d hp hw
+  exact ⟨d', h1⟩
 
 theorem set_pads_with_null (now v : Val) (xs : List Val) (i : Nat) :
-    runUpdater .set now (.arr xs) (toString i) v = .ok (.arr (padSet xs i v)) := by sorry
+    runUpdater .set now (.arr xs) (toString i) v = .ok (.arr (padSet xs i v)) :=
+  set_pad now v xs i
 
 theorem single_field_frame (u : Updater) (now v : Val) (p : String) (rest : List String)
     (fs fs' : Fields) (h : updateSingleField u now v (p :: rest) (.doc fs) = .ok (.doc fs')) :
     (∀ k, k ≠ p → dget k fs' = dget k fs) ∧
-    (dkeys fs').filter (· ≠ p) = (dkeys fs).filter (· ≠ p) := by sorry
+    (dkeys fs').filter (· ≠ p) = (dkeys fs).filter (· ≠ p) := by
+  obtain ⟨fs'', e, ht⟩ := usf_doc_touch u now v p rest fs _ h
+  cases e
+  exact ⟨fun k hk => ht.dget hk, ht.keys⟩
 
 theorem unset_removes (now v : Val) (f : String) (fs : Fields) :
-    runUpdater .unset now (.doc fs) f v = .ok (.doc (derase f fs)) ∧ dget f (derase f fs) = none ∨
-    (∃ k, k ∈ dkeys fs ∧ k = f ∧ (dkeys fs).count f > 1) := by sorry
+    runUpdater .unset now (.doc fs) f v = .ok (.doc (derase f fs)) ∧
+    ((dkeys fs).count f ≤ 1 → dget f (derase f fs) = none) ∧
+    (∀ k, k ≠ f → dget k (derase f fs) = dget k fs) :=
+  ⟨rfl, fun h => dget_derase_self h, fun _ hk => dget_derase_other hk fs⟩
 
 theorem inc_adds (now : Val) (f : String) (fs : Fields) (n k : Int) :
     (dget f fs = some (.int n) → runUpdater .inc now (.doc fs) f (.int k) = .ok (.doc (dset f (.int (n + k)) fs))) ∧
-    (dget f fs = none → runUpdater .inc now (.doc fs) f (.int k) = .ok (.doc (dset f (.int k) fs))) := by sorry
+    (dget f fs = none → runUpdater .inc now (.doc fs) f (.int k) = .ok (.doc (dset f (.int k) fs))) :=
+  ⟨inc_some now f fs n k, inc_none now f fs k⟩
 
 theorem min_max_spec (now : Val) (f : String) (fs : Fields) (n k : Int) (h : dget f fs = some (.int n)) :
     runUpdater .max now (.doc fs) f (.int k) = .ok (.doc (dset f (.int (if k > n then k else n)) fs)) ∧
-    runUpdater .min now (.doc fs) f (.int k) = .ok (.doc (dset f (.int (if k < n then k else n)) fs)) := by sorry
+    runUpdater .min now (.doc fs) f (.int k) = .ok (.doc (dset f (.int (if k < n then k else n)) fs)) :=
+  ⟨max_int now f fs n k h, min_int now f fs n k h⟩
 
 theorem pop_spec (now : Val) (f : String) (fs : Fields) (xs : List Val) (h : dget f fs = some (.arr xs)) :
     runUpdater .pop now (.doc fs) f (.int 1) = .ok (.doc (dset f (.arr xs.dropLast) fs)) ∧
-    runUpdater .pop now (.doc fs) f (.int (-1)) = .ok (.doc (dset f (.arr (xs.drop 1)) fs)) := by sorry
+    runUpdater .pop now (.doc fs) f (.int (-1)) = .ok (.doc (dset f (.arr (xs.drop 1)) fs)) :=
+  ⟨pop_last now f fs xs h, pop_first now f fs xs h⟩
 
 theorem rename_spec (src dst : String) (fs : Fields) (x : Val)
     (hs : src.toList.contains '.' = false) (hd : dst.toList.contains '.' = false)
     (h : dget src fs = some x) :
-    renameFields (.doc [(src, .str dst)]) (.doc fs) = .ok (.doc (dset dst x (derase src fs))) := by sorry
+    renameFields (.doc [(src, .str dst)]) (.doc fs) = .ok (.doc (dset dst x (derase src fs))) :=
+  rename_one src dst fs x hs hd h
 
 theorem pySlice_split (xs : List Val) (i : Int) :
-    pySlice xs (some 0) (some i) ++ pySlice xs (some i) none = xs := by sorry
+    pySlice xs (some 0) (some i) ++ pySlice xs (some i) none = xs :=
+  pySlice_split' xs i
 
 theorem push_keeps_order (xs es : List Val) (pos : Option Int) :
-    ∃ k, pushValue (.arr xs) (.doc (("$each", .arr es) ::
+    ∃ k, k ≤ xs.length ∧ pushValue (.arr xs) (.doc (("$each", .arr es) ::
         (match pos with | some p => [("$position", .int p)] | none => []))) =
-      .ok (.arr (xs.take k ++ es ++ xs.drop k)) := by sorry
+      .ok (.arr (xs.take k ++ es ++ xs.drop k)) := by
+  cases pos with
+  | none => exact ⟨xs.length, Nat.le_refl _, by simp [push_each]⟩
+  | some p => exact ⟨sliceBound xs.length p, sliceBound_le _ _, push_each_pos xs es p⟩
+
+theorem push_position_spec (xs es : List Val) (p : Int) :
+    pushValue (.arr xs) (.doc [("$each", .arr es), ("$position", .int p)]) =
+      .ok (.arr (pySlice xs (some 0) (some p) ++ es ++ pySlice xs (some p) none)) := by
+  rw [push_each_pos, pySlice_prefix, pySlice_suffix]
 
 theorem push_appends (xs : List Val) (v : Val) (h : ∀ fs, v = .doc fs → dget "$each" fs = none) :
-    pushValue (.arr xs) v = .ok (.arr (xs ++ [v])) := by sorry
+    pushValue (.arr xs) v = .ok (.arr (xs ++ [v])) :=
+  push_plain xs v h
 
 theorem push_slice_spec (xs es : List Val) (n : Int) :
     pushValue (.arr xs) (.doc [("$each", .arr es), ("$slice", .int n)]) =
       .ok (.arr (if n < 0 then (xs ++ es).drop ((xs ++ es).length - n.natAbs)
-                 else (xs ++ es).take n.toNat)) := by sorry
+                 else (xs ++ es).take n.toNat)) :=
+  push_each_slice xs es n
 
 theorem addToSet_spec (xs es : List Val) (v : Val) (hv : ∀ fs, v = .doc fs → dget "$each" fs = none) :
     addToSetValue (.arr xs) (.doc [("$each", .arr es)]) =
       .ok (.arr (xs ++ es.filter (fun o => !pyIn o xs))) ∧
-    addToSetValue (.arr xs) v = .ok (.arr (if pyIn v xs then xs else xs ++ [v])) := by sorry
+    addToSetValue (.arr xs) v = .ok (.arr (if pyIn v xs then xs else xs ++ [v])) :=
+  ⟨addToSet_each xs es, addToSet_plain xs v hv⟩
 
 theorem pullAll_spec (xs vs : List Val) :
-    pullAllValue (.arr xs) (.arr vs) = .ok (.arr (xs.filter (fun o => !pyIn o vs))) := by sorry
+    pullAllValue (.arr xs) (.arr vs) = .ok (.arr (xs.filter (fun o => !pyIn o vs))) := rfl
 
 theorem pull_spec (v : Val) (xs : List Val) (hv : isScalar v = true) (hx : xs.all isScalar = true) :
-    pullList v xs = .ok (xs.filter (fun o => !pyEq v o)) := by sorry
+    pullList v xs = .ok (xs.filter (fun o => !pyEq v o)) :=
+  pull_scalar v xs hv hx
 
 theorem replace_spec (doc : Fields) (existing : Fields) (id : Val)
-    (hid : dget "_id" existing = some id) (hn : dget "_id" doc = none)
+    (hid : dget "_id" existing = some id) (hrefl : pyEq id id = true) (hn : dget "_id" doc = none)
     (hd : doc.all (fun kv => !kv.1.startsWith "$") = true) (hk : (dkeys doc).Nodup) :
-    replaceWhole doc (.doc existing) = .ok (.doc (("_id", id) :: doc)) := by sorry
+    replaceWhole doc (.doc existing) = .ok (.doc (("_id", id) :: doc)) :=
+  replace_fresh doc existing id hid hrefl hn hd hk
 
 theorem untouched_fields (spec now : Val) (wasInsert : Bool) (u : Fields) (fs fs' : Fields)
     (hu : u.all (fun kv => kv.1.startsWith "$") = true) (hne : u ≠ [])
     (h : applyUpdate spec (.doc u) now wasInsert (.doc fs) = .ok (.doc fs')) :
-    ∀ k, k ∉ addressed u → dget k fs' = dget k fs := by sorry
+    ∀ k, k ∉ addressed u → dget k fs' = dget k fs := by
+  obtain ⟨fs'', e, hf⟩ := applyUpdate_frame spec now wasInsert u fs _ hu hne h
+  cases e; exact hf
+
+theorem update_stays_document (spec now : Val) (wasInsert : Bool) (u : Fields) (fs : Fields) (d' : Val)
+    (hu : u.all (fun kv => kv.1.startsWith "$") = true) (hne : u ≠ [])
+    (h : applyUpdate spec (.doc u) now wasInsert (.doc fs) = .ok d') : ∃ fs', d' = .doc fs' := by
+  obtain ⟨fs', e, _⟩ := applyUpdate_frame spec now wasInsert u fs d' hu hne h
+  exact ⟨fs', e⟩
+
+theorem single_field_stays_document (u : Updater) (now v : Val) (p : String) (rest : List String)
+    (fs : Fields) (d' : Val) (h : updateSingleField u now v (p :: rest) (.doc fs) = .ok d') :
+    ∃ fs', d' = .doc fs' := by
+  obtain ⟨fs', e, _⟩ := usf_doc_touch u now v p rest fs d' h
+  exact ⟨fs', e⟩
 
 theorem empty_operator (fs : Fields) (op : String) (hop : updaterKeys.contains op = true)
     (h : dget op fs = some (.doc [])) :
     emptyOperatorCheck { preV5 := true } fs = .error .writeErr ∧
-    emptyOperatorCheck { preV5 := false } fs = .ok () := by sorry
+    emptyOperatorCheck { preV5 := false } fs = .ok () :=
+  empty_op fs op hop h
 
 end MongoModel.Proofs.C02
